@@ -1181,7 +1181,7 @@ def rbBidStep (fv : FVals) : Except PErr Str :=
   match lookup "bid".toList fv with
     | none => pure "1000".toList
     | some (some s) => pure s
-    | some none => throw .unsupported
+    | some none => pure "1000".toList
 
 theorem parseVinfo_unfold (fv : FVals) (today : Nat × Nat × Nat) :
     parseVinfo fv today =
